@@ -1,5 +1,11 @@
 #!/usr/bin/env python3
-"""rs2coq: a deliberately small Rust -> Gallina translator for src/effector.rs.
+"""rs2coq: a deliberately small Rust -> Gallina translator for src/effector.rs
+(part 1, below) and for four small string functions - key_match / key_get of
+src/model/function_map.rs, csv_field / remove_comment of src/util.rs - (part 2,
+second half of this file: coq/Gen/StrFnGen.v, proved equal to the model in
+coq/PinChecks/PcStrFnGen.v).  main() writes both generated files.
+
+Part 1.
 
 On every run the bodies of `DefaultEffectStream::push_effect`, `::next` and the
 `match expr` of `DefaultEffector::new_stream` are re-read from /repo and
@@ -313,9 +319,539 @@ def generate():
     return "\n".join(out) + "\n", ok
 
 
-def main():
-    dst = sys.argv[1] if len(sys.argv) > 1 else "/verif/coq/Gen/EffectorGen.v"
-    txt, ok = generate()
+# ====================================================================== part 2
+# Small string functions: key_match / key_get (src/model/function_map.rs) and
+# csv_field / remove_comment (src/util.rs) -> coq/Gen/StrFnGen.v over the
+# operations of coq/Gen/RustStr.v.  coq/PinChecks/PcStrFnGen.v proves the four
+# translated functions equal to the hand-written model for all inputs.
+#
+# Supported subset (anything else: Untranslatable -> `gen_str_translated := false`)
+#   statements   let x = e;      return e;      if .. { .. } [else [if ..] { .. }]
+#                if let Some(x) = e.find('c') { .. } [else { .. }]
+#                if let Some(x) = e.strip_prefix(e2) { .. } [else { .. }]
+#                a final expression (also an if / if let whose branches have values)
+#   expressions  parameters and bound variables, "literals", true, false, &e, (e), &e[..i],
+#                e.starts_with(e2)  e.is_empty()  e.contains('c')  e.trim_end()
+#                e == e2  e != e2  !e  e && e2  e || e2
+#                .to_string() .to_owned() .into() .as_str() .clone()
+#                Cow::Owned(e) Cow::Borrowed(e) String::from(e)      (identity on text)
+#                format!("..{}..", e)   if-expressions with value blocks
+# `&e[..i]` is accepted only when i was bound by `if let Some(i) = e.find('c')`
+# on the same e (so the slice cannot panic; RustStr.rs_slice_to has no panic case).
+#
+# Translation of control flow: a block in TAIL position (its value is the value
+# of the function) becomes a term of the result type R; a block in STATEMENT
+# position becomes a term of type `option R` - Some v when it executes
+# `return v`, None when it falls through - and the enclosing sequence continues
+# with `match <block> with Some ret_ => ret_ | None => <what follows> end`.
+
+STOK = re.compile(r"""\s*(?:(//[^\n]*)|(/\*.*?\*/)|("(?:[^"\\]|\\.)*")|('(?:[^'\\]|\\.)')|(\d+)"""
+                  r"""|([A-Za-z_]\w*(?:::[A-Za-z_]\w*)*!?)|(\|\||&&|==|!=|\.\.|[{}()\[\];=!&.,<>*+\-:?|]))""", re.S)
+
+IDENTITY_METHODS = ("to_string", "to_owned", "into", "as_str", "clone")
+IDENTITY_CTORS = ("Cow::Owned", "Cow::Borrowed", "String::from")
+
+
+def slex(src):
+    out = []
+    i = 0
+    while i < len(src):
+        if src[i:].strip() == "":
+            break
+        m = STOK.match(src, i)
+        if not m:
+            raise Untranslatable("cannot tokenise at: %r" % src[i:i + 30])
+        i = m.end()
+        if m.group(1) or m.group(2):
+            continue
+        for k, kind in ((3, "str"), (4, "chr"), (5, "int"), (6, "id"), (7, "op")):
+            if m.group(k) is not None:
+                out.append((kind, m.group(k)))
+                break
+    return out
+
+
+class SP:
+    """parser of the string-function subset; produces a small AST
+       block  = (stmts, final-expression | None)
+       stmt   = ("let", x, e) | ("ret", e) | ("if", cond, block, block | None)
+       cond   = ("cond", e) | ("iflet", x, e)
+       e      = ("var", x) | ("str", s) | ("chr", c) | ("lit", "true"|"false") | ("idtext", e) | ("not", e) | ("eq", a, b, negated) | ("and", a, b) | ("or", a, b)
+              | ("call", method, receiver, args) | ("slice", e, index) | ("fmt", pre, post, e) | ("ifv", if-stmt)"""
+
+    def __init__(self, toks):
+        self.t = toks
+        self.i = 0
+
+    def peek(self, k=0):
+        return self.t[self.i + k] if self.i + k < len(self.t) else ("eof", "")
+
+    def eat(self, val=None):
+        tk = self.peek()
+        if val is not None and tk[1] != val:
+            raise Untranslatable("expected %r, found %r" % (val, tk[1]))
+        if tk[0] == "eof":
+            raise Untranslatable("unexpected end of the body")
+        self.i += 1
+        return tk
+
+    # ---- expressions
+    def expr(self):
+        e = self.and_()
+        while self.peek() == ("op", "||"):
+            self.eat()
+            e = ("or", e, self.and_())
+        return e
+
+    def and_(self):
+        e = self.cmp()
+        while self.peek() == ("op", "&&"):
+            self.eat()
+            e = ("and", e, self.cmp())
+        return e
+
+    def cmp(self):
+        a = self.unary()
+        if self.peek() in (("op", "=="), ("op", "!=")):
+            op = self.eat()[1]
+            return ("eq", a, self.unary(), op == "!=")
+        return a
+
+    def unary(self):
+        if self.peek() == ("op", "!"):
+            self.eat()
+            return ("not", self.unary())
+        if self.peek() == ("op", "&"):          # a reference: identity on text
+            self.eat()
+            return self.unary()
+        return self.postfix()
+
+    def postfix(self):
+        e = self.primary()
+        while True:
+            if self.peek() == ("op", "."):
+                self.eat()
+                kind, name = self.eat()
+                if kind != "id" or "::" in name or name.endswith("!"):
+                    raise Untranslatable("method name " + name)
+                self.eat("(")
+                args = []
+                while self.peek() != ("op", ")"):
+                    args.append(self.expr())
+                    if self.peek() == ("op", ","):
+                        self.eat()
+                self.eat(")")
+                e = ("call", name, e, args)
+            elif self.peek() == ("op", "["):
+                self.eat()
+                self.eat("..")
+                ix = self.expr()
+                self.eat("]")
+                e = ("slice", e, ix)
+            else:
+                return e
+
+    def primary(self):
+        kind, v = self.peek()
+        if kind == "str":
+            self.eat()
+            return ("str", pins.rust_unescape(v[1:-1]))
+        if kind == "chr":
+            self.eat()
+            c = pins.rust_unescape(v[1:-1])
+            if len(c) != 1:
+                raise Untranslatable("character literal " + v)
+            return ("chr", c)
+        if kind == "op" and v == "(":
+            self.eat()
+            e = self.expr()
+            self.eat(")")
+            return e
+        if kind == "id":
+            if v == "if":
+                return ("ifv", self.if_())
+            if v == "format!":
+                self.eat()
+                self.eat("(")
+                k2, lit = self.eat()
+                if k2 != "str":
+                    raise Untranslatable("format! without a literal format string")
+                fmt = pins.rust_unescape(lit[1:-1])
+                parts = fmt.split("{}")
+                if len(parts) != 2 or "{" in parts[0] + parts[1] or "}" in parts[0] + parts[1]:
+                    raise Untranslatable("format string %r (exactly one {} is supported)" % fmt)
+                self.eat(",")
+                e = self.expr()
+                if self.peek() == ("op", ","):
+                    self.eat()
+                self.eat(")")
+                return ("fmt", parts[0], parts[1], e)
+            if v in IDENTITY_CTORS:
+                self.eat()
+                self.eat("(")
+                e = self.expr()
+                self.eat(")")
+                return ("idtext", e)
+            if v in ("true", "false"):
+                self.eat()
+                return ("lit", v)
+            if v in ("let", "return", "else", "match", "while", "for", "loop", "mut") \
+                    or "::" in v or v.endswith("!"):
+                raise Untranslatable("unsupported " + v)
+            self.eat()
+            return ("var", v)
+        raise Untranslatable("unexpected token " + (v or "end of body"))
+
+    # ---- statements
+    def if_(self):
+        self.eat("if")
+        if self.peek() == ("id", "let"):
+            self.eat()
+            self.eat("Some")
+            self.eat("(")
+            kind, x = self.eat()
+            if kind != "id" or "::" in x or x.endswith("!"):
+                raise Untranslatable("pattern Some(%s)" % x)
+            self.eat(")")
+            self.eat("=")
+            cond = ("iflet", x, self.expr())
+        else:
+            cond = ("cond", self.expr())
+        th = self.block()
+        el = None
+        if self.peek() == ("id", "else"):
+            self.eat()
+            if self.peek() == ("id", "if"):
+                el = close_block([self.if_()], None)
+            else:
+                el = self.block()
+        return ("if", cond, th, el)
+
+    def block(self):
+        self.eat("{")
+        b = self.seq("}")
+        self.eat("}")
+        return b
+
+    def seq(self, closer):
+        stmts, final = [], None
+        while self.peek()[1] != closer and self.peek()[0] != "eof":
+            if final is not None:
+                raise Untranslatable("statement after the value of a block")
+            kind, v = self.peek()
+            if (kind, v) == ("id", "let"):
+                self.eat()
+                k2, x = self.eat()
+                if k2 != "id" or "::" in x or x.endswith("!") or x == "mut":
+                    raise Untranslatable("let pattern " + x)
+                self.eat("=")
+                e = self.expr()
+                self.eat(";")
+                stmts.append(("let", x, e))
+            elif (kind, v) == ("id", "return"):
+                self.eat()
+                e = self.expr()
+                if self.peek() == ("op", ";"):
+                    self.eat()
+                stmts.append(("ret", e))
+            elif (kind, v) == ("id", "if"):
+                stmts.append(self.if_())
+                if self.peek() == ("op", ";"):
+                    self.eat()
+            else:
+                e = self.expr()
+                if self.peek() == ("op", ";"):
+                    raise Untranslatable("expression statement")
+                final = e
+        return close_block(stmts, final)
+
+
+def is_value_if(node):
+    return node[3] is not None and (node[2][1] is not None or node[3][1] is not None)
+
+
+def close_block(stmts, final):
+    """an if in last position whose branches have values is the value of the block"""
+    if final is None and stmts and stmts[-1][0] == "if" and is_value_if(stmts[-1]):
+        return (stmts[:-1], ("ifv", stmts[-1]))
+    return (stmts, final)
+
+
+def coq_char(c):
+    n = ord(c)
+    if n >= 128:
+        raise Untranslatable("non-ASCII character literal (str::find would search a byte sequence)")
+    if c == '"':
+        return '""""%char'
+    if 32 <= n < 127:
+        return '"%s"%%char' % c
+    return "(ascii_of_nat %d)" % n
+
+
+def coq_text(s):
+    if any(not (32 <= ord(c) < 127) for c in s):
+        raise Untranslatable("string literal with non-printable or non-ASCII characters")
+    return "(T %s)" % pins.coq_str(s)
+
+
+def tyname(t):
+    return t if isinstance(t, str) else "Option<%s>" % t[1]
+
+
+def shadow(env, x):
+    """copy of env for a scope that rebinds x: an index found in a string whose term mentions the old x
+       is no longer known to belong to the string now called x"""
+    out = {}
+    for y, t in env.items():
+        if isinstance(t, tuple) and "nat" in t[:-1] and t[-1] is not None \
+                and re.search(r"\bv_%s\b" % re.escape(x), t[-1]):
+            t = t[:-1] + (None,)
+        out[y] = t
+    return out
+
+
+class Emit:
+    """type-directed emission; env: Rust variable -> type, where a type is
+       "text" | "bool" | ("opt", "text") | ("nat", origin) | ("opt", "nat", origin)
+       (origin = the Gallina term of the string the index was found in)"""
+
+    def __init__(self, ret):
+        self.ret = ret
+
+    def ex(self, e, env):
+        k = e[0]
+        if k == "var":
+            if e[1] not in env:
+                raise Untranslatable("identifier " + e[1])
+            return env[e[1]], "v_" + e[1]
+        if k == "str":
+            return "text", coq_text(e[1])
+        if k == "lit":
+            return "bool", e[1]
+        if k == "chr":
+            raise Untranslatable("character literal outside find / contains")
+        if k == "idtext":
+            t, a = self.ex(e[1], env)
+            if t != "text":
+                raise Untranslatable("string constructor applied to a " + tyname(t))
+            return t, a
+        if k == "not":
+            t, a = self.ex(e[1], env)
+            if t != "bool":
+                raise Untranslatable("! on a " + tyname(t))
+            return "bool", "(negb %s)" % a
+        if k in ("and", "or"):
+            ta, a = self.ex(e[1], env)
+            tb, b = self.ex(e[2], env)
+            if ta != "bool" or tb != "bool":
+                raise Untranslatable("%s on non-booleans" % k)
+            return "bool", "(%s %s %s)" % (a, "&&" if k == "and" else "||", b)
+        if k == "eq":
+            ta, a = self.ex(e[1], env)
+            tb, b = self.ex(e[2], env)
+            if ta != tb or ta not in ("text", "bool"):
+                raise Untranslatable("comparison of %s with %s" % (tyname(ta), tyname(tb)))
+            c = "(%s %s %s)" % ("rs_eq" if ta == "text" else "Bool.eqb", a, b)
+            return "bool", ("(negb %s)" % c if e[3] else c)
+        if k == "fmt":
+            t, a = self.ex(e[3], env)
+            if t != "text":
+                raise Untranslatable("format! of a " + tyname(t))
+            return "text", "(rs_format1 %s %s %s)" % (coq_text(e[1]), coq_text(e[2]), a)
+        if k == "slice":
+            t, a = self.ex(e[1], env)
+            if t != "text":
+                raise Untranslatable("slice of a " + tyname(t))
+            ti, ix = self.ex(e[2], env)
+            if not (isinstance(ti, tuple) and ti[0] == "nat"):
+                raise Untranslatable("slice bound is not an index")
+            if e[2][0] != "var" or ti[1] != a:
+                raise Untranslatable("slice bound %s was not found in the sliced string (could panic)" % ix)
+            return "text", "(rs_slice_to %s %s)" % (a, ix)
+        if k == "call":
+            name, recv, args = e[1], e[2], e[3]
+            t, a = self.ex(recv, env)
+            if t != "text":
+                raise Untranslatable("method .%s on a %s" % (name, tyname(t)))
+            if name in IDENTITY_METHODS and not args:
+                return "text", a
+            if name in ("is_empty", "trim_end") and not args:
+                return ("bool", "(rs_is_empty %s)" % a) if name == "is_empty" else ("text", "(rs_trim_end %s)" % a)
+            if name in ("find", "contains") and len(args) == 1 and args[0][0] == "chr":
+                c = coq_char(args[0][1])
+                if name == "find":
+                    return ("opt", "nat", a), "(rs_find_char %s %s)" % (c, a)
+                return "bool", "(rs_contains_char %s %s)" % (c, a)
+            if name in ("starts_with", "strip_prefix") and len(args) == 1:
+                tb, b = self.ex(args[0], env)
+                if tb != "text":
+                    raise Untranslatable(".%s of a %s" % (name, tyname(tb)))
+                if name == "starts_with":
+                    return "bool", "(rs_starts_with %s %s)" % (a, b)
+                return ("opt", "text"), "(rs_strip_prefix %s %s)" % (a, b)
+            raise Untranslatable("method .%s with %d argument(s)" % (name, len(args)))
+        if k == "ifv":
+            # an if in expression position that is not the value of the function: pure value blocks
+            holder = []
+
+            def pure(blk, env2):
+                ty, term = self.value(blk, env2)
+                holder.append(ty)
+                return term
+            node = e[1]
+            if node[3] is None:
+                raise Untranslatable("if-expression without else")
+            term = self.branch(node, env, lambda en: pure(node[2], en), lambda en: pure(node[3], en))
+            if holder[0] != holder[1]:
+                raise Untranslatable("if-expression with branches of type %s and %s" % (tyname(holder[0]), tyname(holder[1])))
+            return holder[0], term
+        raise Untranslatable("expression " + k)
+
+    def branch(self, node, env, fa, fb):
+        cond = node[1]
+        if cond[0] == "cond":
+            t, c = self.ex(cond[1], env)
+            if t != "bool":
+                raise Untranslatable("condition of type " + tyname(t))
+            return "(if %s then %s else %s)" % (c, fa(env), fb(env))
+        t, c = self.ex(cond[2], env)
+        if not (isinstance(t, tuple) and t[0] == "opt"):
+            raise Untranslatable("if let Some(..) on a " + tyname(t))
+        inner = "text" if t[1] == "text" else ("nat", t[2])
+        env2 = shadow(env, cond[1])
+        env2[cond[1]] = inner
+        return "(match %s with Some v_%s => %s | None => %s end)" % (c, cond[1], fa(env2), fb(env))
+
+    def bind(self, st, env):
+        t, a = self.ex(st[2], env)
+        env2 = shadow(env, st[1])
+        env2[st[1]] = t
+        return env2, "v_" + st[1], a
+
+    def value(self, blk, env):
+        """a block without return: lets and a final expression -> (type, term)"""
+        stmts, final = blk
+        if final is None:
+            raise Untranslatable("block without a value in expression position")
+        if not stmts:
+            return self.ex(final, env)
+        st = stmts[0]
+        if st[0] != "let":
+            raise Untranslatable("only let is supported inside an if-expression that is not in tail position")
+        env2, x, a = self.bind(st, env)
+        t, rest = self.value((stmts[1:], final), env2)
+        return t, "(let %s := %s in %s)" % (x, a, rest)
+
+    def tail(self, blk, env):
+        """a block whose value is the value of the function -> term of type R"""
+        stmts, final = blk
+        if not stmts:
+            if final is None:
+                raise Untranslatable("control reaches the end of the function without a value")
+            if final[0] == "ifv":
+                node = final[1]
+                return self.branch(node, env, lambda en: self.tail(node[2], en), lambda en: self.tail(node[3], en))
+            t, a = self.ex(final, env)
+            if t != self.ret:
+                raise Untranslatable("value of type %s where %s is expected" % (tyname(t), self.ret))
+            return a
+        st, rest = stmts[0], (stmts[1:], final)
+        if st[0] == "let":
+            env2, x, a = self.bind(st, env)
+            return "(let %s := %s in\n %s)" % (x, a, self.tail(rest, env2))
+        if st[0] == "ret":
+            if rest != ([], None):
+                raise Untranslatable("code after return")
+            return self.returned(st, env)
+        return "(match %s with Some ret_ => ret_ | None =>\n %s end)" % (self.opt_if(st, env), self.tail(rest, env))
+
+    def returned(self, st, env):
+        t, a = self.ex(st[1], env)
+        if t != self.ret:
+            raise Untranslatable("return of a %s where %s is expected" % (tyname(t), self.ret))
+        return a
+
+    def opt(self, blk, env):
+        """a block in statement position -> term of type option R (Some v = it returned v)"""
+        stmts, final = blk
+        if final is not None:
+            raise Untranslatable("value in statement position")
+        if not stmts:
+            return "None"
+        st, rest = stmts[0], (stmts[1:], None)
+        if st[0] == "let":
+            env2, x, a = self.bind(st, env)
+            return "(let %s := %s in %s)" % (x, a, self.opt(rest, env2))
+        if st[0] == "ret":
+            if stmts[1:]:
+                raise Untranslatable("code after return")
+            return "(Some %s)" % self.returned(st, env)
+        o = self.opt_if(st, env)
+        if not stmts[1:]:
+            return o
+        return "(match %s with Some ret_ => Some ret_ | None => %s end)" % (o, self.opt(rest, env))
+
+    def opt_if(self, node, env):
+        return self.branch(node, env, lambda en: self.opt(node[2], en),
+                           lambda en: self.opt(node[3] if node[3] is not None else ([], None), en))
+
+
+STR_FUNCS = (("src/model/function_map.rs", "key_match", 2, "bool"),
+             ("src/model/function_map.rs", "key_get", 2, "text"),
+             ("src/util.rs", "csv_field", 1, "text"),
+             ("src/util.rs", "remove_comment", 1, "text"))
+
+
+def translate_str_fn(src, name, arity, ret):
+    hdr = r"pub\s+fn\s+%s\s*(?:<[^>]*>)?\s*\(([^)]*)\)\s*->\s*([^{;]+?)\s*(?=\{)" % name
+    m = re.search(hdr, src)
+    if not m:
+        raise Untranslatable("%s: signature not found" % name)
+    params = []
+    for prm in [x.strip() for x in m.group(1).split(",") if x.strip()]:
+        pm = re.match(r"(\w+)\s*:\s*(.+)$", prm, re.S)
+        if not pm or not re.match(r"&\s*(?:'\w+\s+)?str$|&?\s*String$", pm.group(2).strip()):
+            raise Untranslatable("%s: parameter %r is not a string" % (name, prm))
+        params.append(pm.group(1))
+    if len(params) != arity:
+        raise Untranslatable("%s: %d parameters, expected %d" % (name, len(params), arity))
+    rt = re.sub(r"\s+", "", m.group(2))
+    got = "bool" if rt == "bool" else "text" if re.match(r"(String|&(?:'\w+)?str|Cow<(?:'\w+,)?str>)$", rt) else None
+    if got != ret:
+        raise Untranslatable("%s: return type %s" % (name, rt))
+    body = pins.fn_body(src, hdr)
+    if body is None:
+        raise Untranslatable("%s: body not found" % name)
+    p = SP(slex(body.strip()[1:-1]))
+    blk = p.seq("}")
+    if p.peek()[0] != "eof":
+        raise Untranslatable("%s: trailing tokens" % name)
+    term = Emit(ret).tail(blk, {x: "text" for x in params})
+    return "Definition gen_%s %s : %s :=\n %s.\n" % (
+        name, " ".join("(v_%s : text)" % x for x in params), ret, term)
+
+
+def generate_str():
+    out = ["(* GENERATED on every run by tools/rs2coq.py from /repo/src/model/function_map.rs (key_match, key_get)",
+           "   and /repo/src/util.rs (csv_field, remove_comment) - do not edit. *)",
+           "From CV Require Import Model.Base Gen.RustStr.", ""]
+    ok = True
+    for rel, name, arity, ret in STR_FUNCS:
+        try:
+            src = pins.read(rel)
+            if src is None:
+                raise Untranslatable("cannot read " + rel)
+            out.append(translate_str_fn(src, name, arity, ret))
+        except Exception as ex:   # noqa
+            ok = False
+            out.append("(* translation of %s failed: %s *)" % (name, str(ex).replace("*)", "* )").replace("(*", "( *")))
+            out.append("Definition gen_%s %s : %s := %s.\n" % (
+                name, " ".join("(_ : text)" for _ in range(arity)), ret, "false" if ret == "bool" else "[]"))
+    out.append("Definition gen_str_translated : bool := %s." % ("true" if ok else "false"))
+    return "\n".join(out) + "\n", ok
+
+
+def write_if_changed(dst, txt, ok):
     os.makedirs(os.path.dirname(dst), exist_ok=True)
     old = None
     try:
@@ -326,7 +862,15 @@ def main():
         open(dst, "w", encoding="utf-8").write(txt)
         print("rs2coq: rewritten", dst, "(translated)" if ok else "(UNTRANSLATABLE)")
     else:
-        print("rs2coq: unchanged")
+        print("rs2coq: unchanged", dst)
+
+
+def main():
+    dst = sys.argv[1] if len(sys.argv) > 1 else "/verif/coq/Gen/EffectorGen.v"
+    txt, ok = generate()
+    write_if_changed(dst, txt, ok)
+    txt2, ok2 = generate_str()
+    write_if_changed(os.path.join(os.path.dirname(dst), "StrFnGen.v"), txt2, ok2)
 
 
 if __name__ == "__main__":
